@@ -807,10 +807,27 @@ def exp_obs(fv, tname, toks, pyinput):
     return None
 
 
+_FOREIGN_REPRS = set()      # (decimal value, repr) of int-subclass instances among the inputs actually handed in
+
+
+def _note_foreign(v):
+    if isinstance(v, (list, tuple)):
+        for e in v:
+            _note_foreign(e)
+    elif isinstance(v, int) and not isinstance(v, bool) and type(v) is not int:
+        _FOREIGN_REPRS.add((str(int(v)), repr(v)))
+
+
 def _match(exp, real, pyinput, toks):
     if isinstance(exp, tuple):
         if exp[0] == "uint":
-            return isinstance(real, list) and real[:2] == [exp[1], exp[2]] and real[2].replace("-0.0", "0.0") == exp[3]
+            if not (isinstance(real, list) and real[:2] == [exp[1], exp[2]]):
+                return False
+            if real[2].replace("-0.0", "0.0") == exp[3]:
+                return True
+            # `.value` keeps the object that was handed in: for an element that already was an instance of ANOTHER field
+            # type (a filesize / unix_file_mode taken from a typed list) its repr is that type's, not the number's
+            return (exp[2], real[2]) in _FOREIGN_REPRS
         if exp[0] == "ipv4int":
             return isinstance(real, list) and real[0] == "ipv4.address" and real[1] in (exp[1], {"1": "True", "0": "False"}.get(exp[1]))
         if exp[0] == "class":
@@ -881,7 +898,14 @@ def compare(case, obs, m):
     if "error" in m and "ok" not in m and "construct" not in m:
         return f"model error {m['error']}"
     toks = Toks()
-    model_op(case, obs) if False else None
+    _FOREIGN_REPRS.clear()
+    try:
+        for spec in ([case["value"]] if case["kind"] == "coerce" else
+                     list(case["args"]) + [op[2] for op in case["ops"] if op[0] == "assign"] +
+                     [v for op in case["ops"] if op[0] == "replace" for _, v in op[1]]):
+            _note_foreign(_build(spec))
+    except Exception:       # noqa: BLE001
+        pass
     if case["kind"] == "coerce":
         x = _braw(case["value"])
         to_inp(x, toks)
